@@ -460,11 +460,12 @@ Apply(st, ev, a) ==
       [] ev = "RemoveKey"        -> RemoveKey(st, a)
       [] ev = "StripAnnotationIds" -> StripAnnotationIds(st)
       [] ev = "StripDataIds"     -> StripDataIds(st)
+      [] ev = "ShrinkToFit"      -> Ok(st, 0)        \* a tuning operation: never changes an answer (C12)
       [] OTHER                   -> Err(st)
 
 MutatingEvents == {"AddResource", "AddDataset", "AddKey", "InsertData", "Annotate", "RemoveAnnotation",
                    "RemoveResource", "RemoveDataset", "RemoveData", "RemoveKey",
-                   "StripAnnotationIds", "StripDataIds"}
+                   "StripAnnotationIds", "StripDataIds", "ShrinkToFit"}
 
 InDomain(st, ev, a) == ev = "Annotate" /\ a.target.kind # "None" => TargetInDomain(st, a.target)
 
